@@ -42,6 +42,10 @@ type C06Event struct {
 	Node int `json:"node"`
 	K    int `json:"k"`    // number of new blocks (for lagging nodes: catch-up blocks first)
 	When int `json:"when"` // 0 = after quiescence of the initial sync; n>0 = when that node has received n getheaders
+	// Reorg d > 0 (single-node plans, after the sync): the node abandons its last d blocks for a competing branch of d
+	// blocks whose first block carries 256 times the work, and announces the new tip - the service's tip is not on the
+	// node's best chain any more
+	Reorg int `json:"reorg,omitempty"`
 }
 
 // C06Plan is one sync scenario.
@@ -410,6 +414,7 @@ func execC06(sc *scenario) (*stats.Case, error) {
 	}
 	// events scheduled during sync
 	fired := map[int]bool{}
+	reorgs := 0
 	fire := func(i int) (last *simnet.Block) {
 		e := p.Events[i]
 		fired[i] = true
@@ -419,6 +424,18 @@ func execC06(sc *scenario) (*stats.Case, error) {
 		node, pn := sc.nodes[e.Node], p.Nodes[e.Node]
 		if pn.Branch != -1 {
 			return nil // only honest nodes grow in this version
+		}
+		if e.Reorg > 0 && int(node.Height()) == len(target) && len(target) > e.Reorg {
+			base := append([]*simnet.Block{}, target[:len(target)-e.Reorg]...)
+			ext := sc.u.Extend(base, 1, 50+i, 0x1c00ffff)
+			ext = sc.u.Extend(ext, e.Reorg-1, 50+i, 0x1d00ffff)
+			for d := time.Now().Add(5 * time.Second); !node.Ready() && time.Now().Before(d); {
+				time.Sleep(2 * time.Millisecond)
+			}
+			node.Reorg(e.Reorg, ext[len(base):], true)
+			target = ext
+			reorgs++
+			return ext[len(ext)-1]
 		}
 		have := int(node.Height())
 		var blocks []*simnet.Block
@@ -557,6 +574,7 @@ func execC06(sc *scenario) (*stats.Case, error) {
 		}
 	}
 	cl["with_fault"] = b2i(fault)
+	cl["with_reorg_of_the_only_node"] = b2i(reorgs > 0)
 	if p.Takeover {
 		cl["takeover"] = 1
 		cl["takeover_sync_peer_closed"] = b2i(len(sc.nodes) > 1 && sc.nodes[1].Stat().ScriptCloses > 0)
@@ -688,6 +706,14 @@ func genC06(t *rapid.T) *C06Plan {
 		p.Nodes = []C06Node{n0, n1}
 		p.Events = []C06Event{{Node: 0, K: 1}}
 		return p
+	}
+	if len(p.Nodes) == 1 && len(p.Forks) == 0 && rapid.IntRange(0, 2).Draw(t, "reorgk") == 0 {
+		// the only node abandons its last block(s) for a heavier competing branch after the sync
+		d := rapid.IntRange(1, 2).Draw(t, "reorgd")
+		p.Events = append(p.Events, C06Event{Node: 0, K: d, Reorg: d})
+		if rapid.Bool().Draw(t, "reorgthen") {
+			p.Events = append(p.Events, C06Event{Node: 0, K: 1})
+		}
 	}
 	during := false
 	for _, e := range p.Events {
